@@ -55,6 +55,11 @@ def gen_exportable(rng):
             data = [gen._round(rng.uniform(1.0, 20.0) if sig else rng.uniform(10.0, 120.0), 3) for _ in range(nb)]
             if not sig and rng.random() < 0.1:
                 data[rng.randrange(nb)] = 0.0
+            negative_bin = None
+            if not sig and s in stat_parts and len(stat_parts) >= 2 and s == stat_parts[0] and rng.random() < 0.3:
+                # interference-like template: one negative yield, the other participants keep the bin total positive
+                negative_bin = rng.randrange(nb)
+                data[negative_bin] = -gen._round(rng.uniform(0.5, 4.0), 3)
             mods = []
             if sig:
                 mods.append({"name": "mu", "type": "normfactor", "data": None})
@@ -67,11 +72,11 @@ def gen_exportable(rng):
                     mods.append({"name": sn, "type": "normsys", "data": {"hi": gen._round(1 + rng.uniform(0.01, 0.3), 4), "lo": gen._round(1 - rng.uniform(0.01, 0.3), 4)}})
                 if rng.random() < 0.4:
                     mods.append({"name": sn, "type": "histosys", "data": {"hi_data": [gen._round(v * (1 + rng.uniform(0.01, 0.2)) + 0.01, 4) for v in data],
-                                                                            "lo_data": [gen._round(v * (1 - rng.uniform(0.01, 0.2)), 4) for v in data]}})
-            if not sig and rng.random() < 0.35:
+                                                                            "lo_data": [gen._round(v * (1 - rng.uniform(0.01, 0.2)) - (0.02 if v < 0 else 0.0), 4) for v in data]}})
+            if not sig and negative_bin is None and rng.random() < 0.35:
                 mods.append({"name": f"shape_{s}_{c}", "type": "shapesys", "data": [gen._round(rng.uniform(0.03, 0.3) * v, 4) if v > 0 else 0.0 for v in data]})
             if s in stat_parts:
-                mods.append({"name": stat_name, "type": "staterror", "data": [gen._round(rng.uniform(0.02, 0.2) * v, 4) if v > 0 else 0.0 for v in data]})
+                mods.append({"name": stat_name, "type": "staterror", "data": [gen._round(rng.uniform(0.02, 0.2) * abs(v), 4) if v != 0 else 0.0 for v in data]})
             if not sig and not sf_done and rng.random() < 0.15:
                 mods.append({"name": f"sf_{s}", "type": "shapefactor", "data": None})
                 sf_done = True
